@@ -120,11 +120,27 @@ int lltd_port_memcmp(const void *a, const void *b, size_t n) { return memcmp(a, 
 
 void lltd_port_sleep_ms(uint32_t ms) { fprintf(vp_out, "sleep %u\n", ms); }
 
+#define VP_TXMAX 1024
+struct vp_txrec vp_prev_tx[VP_TXMAX], vp_cur_tx[VP_TXMAX];
+unsigned vp_prev_tx_n = 0, vp_cur_tx_n = 0;
+void vp_rotate_tx(void) {
+    for (unsigned i = 0; i < vp_prev_tx_n; i++) free(vp_prev_tx[i].data);
+    memcpy(vp_prev_tx, vp_cur_tx, sizeof(vp_cur_tx[0]) * vp_cur_tx_n);
+    vp_prev_tx_n = vp_cur_tx_n;
+    vp_cur_tx_n = 0;
+}
+
 int lltd_port_send_frame(void *iface_ctx, const void *frame, size_t frame_len) {
     vp_iface *it = (vp_iface *)iface_ctx;
     send_calls++;
     int fail = fail_s_all || hit(fail_s, n_fail_s, send_calls);
     if (fail) faults_fired++;
+    if (!fail && vp_cur_tx_n < VP_TXMAX && it) {
+        vp_cur_tx[vp_cur_tx_n].iface = it->index;
+        vp_cur_tx[vp_cur_tx_n].len = frame_len;
+        vp_cur_tx[vp_cur_tx_n].data = memcpy(malloc(frame_len ? frame_len : 1), frame, frame_len);
+        vp_cur_tx_n++;
+    }
     fprintf(vp_out, "%s %d ", fail ? "txfail" : "tx", it ? it->index : -1);
     vp_hex(vp_out, (const uint8_t *)frame, frame_len);
     fputc('\n', vp_out);
